@@ -206,9 +206,9 @@ type callRec struct {
 }
 
 type outcome struct {
-	Key        string    `json:"key"`     // "" when the oracle holds
+	Key        string    `json:"key"`            // "" when the oracle holds
 	Keys       []string  `json:"keys,omitempty"` // one per leaked function for a pure leak
-	Symptom    string    `json:"symptom"` // call-hang | close-hang | errchan-open | goroutine-leak
+	Symptom    string    `json:"symptom"`        // call-hang | close-hang | errchan-open | goroutine-leak
 	What       string    `json:"what"`
 	At         string    `json:"at"`
 	Call       string    `json:"call"`
